@@ -1,5 +1,79 @@
 import JF.Driver.Core
+import JF.Model.Potential.Displacement
+/-!
+Component `pot`: the displacement routines of `JF/Model/Potential/Displacement.lean`.
+Requests (floats as uint64 bit patterns, `n` = dimension, `v…` velocity, `s…` separation):
+
+  ip  power prefactor n v… s… c1 c2 dE        InversePowerPotential.displacement
+  lj  prefactor charlen n v… s… dE            LennardJonesPotential.displacement
+  ep  eqsep power prefactor n v… s… dE        DisplacedEvenPowerPotential.displacement
+  cb  prefactor L v0 v1 v2 s0 s1 s2 c1 c2 dE  InversePowerCoulombBoundingPotential.displacement
+  hs  radius n v… s…                          HardSpherePotential.displacement
+  hd  minsep maxsep n v… s…                   HardDipolePotential.displacement
+  cell  b0 b1 cp dE n v…                      CellBoundingPotential (with charges)
+  cell0 b c1 c2 dE n v…                       CellBoundingPotential (without charges)
+
+Reply: `v <bits of result> <bits of smallest comparison gap>` or `e <ExceptionName> <bits of gap>`.
+-/
 namespace JF.Driver
-/-- component `pot` (stub until its model is written) -/
-def potComp : Comp := Comp.pure fun _ => "unimplemented"
+open JF JF.Pot
+
+private def showR (r : Except String Float × Float) : String :=
+  match r with
+  | (.ok x, g) => s!"v {bits x} {bits g}"
+  | (.error e, g) => s!"e {e} {bits g}"
+
+/-- split `n` floats off the front -/
+private def takeF (n : Nat) (l : List String) : List Float × List String :=
+  ((l.take n).map fl, l.drop n)
+
+def potComp : Comp := Comp.pure fun
+  | "ip" :: p :: k :: n :: rest =>
+    let n := nat! n
+    let (vel, rest) := takeF n rest
+    let (sep, rest) := takeF n rest
+    match rest with
+    | [c1, c2, dE] => showR (run [] ((InvPow.mk (fl p) (fl k)).displacement vel sep (fl c1) (fl c2) (fl dE)))
+    | _ => "bad-op"
+  | "lj" :: k :: cl :: n :: rest =>
+    let n := nat! n
+    let (vel, rest) := takeF n rest
+    let (sep, rest) := takeF n rest
+    match rest with
+    | [dE] => showR (run sep (do let H ← lennardJones (fl k) (fl cl); H.displacement vel (fl dE)))
+    | _ => "bad-op"
+  | "ep" :: eq :: p :: k :: n :: rest =>
+    let n := nat! n
+    let (vel, rest) := takeF n rest
+    let (sep, rest) := takeF n rest
+    match rest with
+    | [dE] => showR (run sep ((evenPower (fl eq) (fl p) (fl k)).displacement vel (fl dE)))
+    | _ => "bad-op"
+  | ["cb", k, L, v0, v1, v2, s0, s1, s2, c1, c2, dE] =>
+    showR (run [] (cbDisplacement (fl k) (fl L) [fl v0, fl v1, fl v2] [fl s0, fl s1, fl s2] (fl c1) (fl c2) (fl dE)))
+  | "hs" :: r :: n :: rest =>
+    let n := nat! n
+    let (vel, rest) := takeF n rest
+    let (sep, rest) := takeF n rest
+    match rest with
+    | [] => showR (run [] (hardSphere (fl r) vel sep))
+    | _ => "bad-op"
+  | "hd" :: a :: b :: n :: rest =>
+    let n := nat! n
+    let (vel, rest) := takeF n rest
+    let (sep, rest) := takeF n rest
+    match rest with
+    | [] => showR (run [] (hardDipole (fl a) (fl b) vel sep))
+    | _ => "bad-op"
+  | "cell" :: b0 :: b1 :: cp :: dE :: n :: rest =>
+    let (vel, rest) := takeF (nat! n) rest
+    match rest with
+    | [] => showR (run [] (cellBounding (fl b0) (fl b1) (fl cp) (fl dE) vel))
+    | _ => "bad-op"
+  | "cell0" :: b :: c1 :: c2 :: dE :: n :: rest =>
+    let (vel, rest) := takeF (nat! n) rest
+    match rest with
+    | [] => showR (run [] (cellBoundingNoCharges (fl b) (fl c1) (fl c2) (fl dE) vel))
+    | _ => "bad-op"
+  | _ => "bad-op"
 end JF.Driver
